@@ -148,22 +148,25 @@ async fn timed<T, F: std::future::Future<Output = T>>(f: F, max: Duration) -> (O
     (r, t0.elapsed())
 }
 fn tasks() -> usize { tokio::runtime::Handle::current().metrics().num_alive_tasks() }
-fn udp_ports_bound() -> std::collections::HashSet<u16> {
-    let mut s = std::collections::HashSet::new();
+/// (local port, socket inode) of every UDP socket in this network namespace
+fn udp_sockets() -> Vec<(u16, u64)> {
+    let mut v = vec![];
     for f in ["/proc/net/udp", "/proc/net/udp6"] {
         if let Ok(t) = std::fs::read_to_string(f) {
             for l in t.lines().skip(1) {
-                let mut it = l.split_whitespace();
-                it.next();
-                if let Some(local) = it.next() {
-                    if let Some(p) = local.rsplit(':').next() {
-                        if let Ok(p) = u16::from_str_radix(p, 16) { s.insert(p); }
-                    }
-                }
+                let cols: Vec<&str> = l.split_whitespace().collect();
+                if cols.len() < 10 { continue; }
+                let port = cols[1].rsplit(':').next().and_then(|p| u16::from_str_radix(p, 16).ok());
+                let inode = cols[9].parse::<u64>().ok();
+                if let (Some(p), Some(i)) = (port, inode) { v.push((p, i)); }
             }
         }
     }
-    s
+    v
+}
+/// the sockets (by inode: a port number can be handed out again to somebody else) bound to these ports now
+fn inodes_of(ports: &[u16]) -> Vec<(u16, u64)> {
+    udp_sockets().into_iter().filter(|(p, _)| ports.contains(p)).collect()
 }
 
 async fn local_offer(pc: &PeerConnection) -> Result<SessionDescription, String> {
@@ -213,9 +216,12 @@ enum Ev {
 }
 impl Ev {
     /// the stimuli as the model sees them (threads of `option event`; None = the harness waited)
-    fn threads(self, phase: Phase) -> String {
+    fn threads(self, phase: Phase, peer_notify_arrived: bool) -> String {
         let t = |xs: &[&str]| format!("[{}]", xs.join("; "));
         match self {
+            // a rustrtc peer that closes or vanishes stops ICE before its DTLS task gets to send close_notify;
+            // now and then the alert wins that race: the stimulus is what A's DTLS layer actually saw
+            Ev::PeerClose | Ev::PeerDrop if peer_notify_arrived => format!("[{}]", t(&["Some PeerCloseNotify"])),
             Ev::Close => format!("[{}]", t(&["Some Close"])),
             // a drop that lands while start_dtls holds its own reference is deferred until the handshake ends
             Ev::Drop if phase == Phase::DtlsHandshaking => format!("[{}]", t(&["Some Drop", "None", "Some DtlsDone"])),
@@ -230,7 +236,6 @@ impl Ev {
             Ev::ShutdownAlone => format!("[{}]", t(&["Some SctpShutdown"])),
             Ev::IceStop => format!("[{}]", t(&["Some IceStop"])),
             Ev::IceStopThenClose => format!("[{}]", t(&["Some IceStop", "None", "Some Close"])),
-            // a rustrtc peer that closes or vanishes sends nothing A could act on within the window
             Ev::PeerClose | Ev::PeerDrop => "[]".into(),
             Ev::RaceCloseNotify => format!("[{}; {}]", t(&["Some Close"]), t(&["Some PeerCloseNotify"])),
             Ev::RaceCloseAbort => format!("[{}; {}]", t(&["Some Close"]), t(&["Some SctpAbort"])),
@@ -279,6 +284,8 @@ struct Outcome {
     ports: Vec<u16>,
     ports_still_bound: Vec<u16>,
     notes: Vec<String>,
+    /// A's DTLS layer saw a close_notify (independent of what the PeerConnection then reported)
+    dtls_saw_close_notify: bool,
 }
 
 struct Setup {
@@ -465,6 +472,7 @@ async fn run_scenario(sc: Scenario) -> Outcome {
     }
     let Some(mut s) = s else { out.setup_failed = Some(last_err); return out; };
     out.ports = s.ports.clone();
+    let socks = inodes_of(&s.ports);
     let ev = sc.ev;
     let a = s.a.take().unwrap();
     // pending calls started before the event
@@ -582,6 +590,11 @@ async fn run_scenario(sc: Scenario) -> Outcome {
         if quiet || t_event.elapsed() > SETTLE_MAX { break; }
     }
     out.settle_ms = ms(t_event.elapsed());
+    if let Some(a) = a_opt.as_ref() {
+        if let Some(d) = a.verif_dtls_transport() {
+            out.dtls_saw_close_notify = matches!(d.get_state(), rustrtc::transports::dtls::DtlsState::Closed);
+        }
+    }
     out.after = Some(last.clone());
     out.chan = cc(&s.ca);
     // the parked sender
@@ -642,15 +655,14 @@ async fn run_scenario(sc: Scenario) -> Outcome {
     out.final_obs = Some(s.wa.obs());
     out.chan_final = cc(&s.ca);
     for h in &s.hs { h.abort(); }
-    let ports = s.ports.clone();
     drop(s);
     let rel = wait_until(|| tasks() == 0, RELEASE_BOUND).await;
     out.tasks_after_release = tasks();
     out.release_ms = rel.map(|_| ms(t_rel.elapsed()));
     let bound_deadline = Instant::now() + Duration::from_secs(2);
     loop {
-        let bound = udp_ports_bound();
-        out.ports_still_bound = ports.iter().copied().filter(|p| bound.contains(p)).collect();
+        let now: std::collections::HashSet<u64> = udp_sockets().into_iter().map(|(_, i)| i).collect();
+        out.ports_still_bound = socks.iter().filter(|(_, i)| now.contains(i)).map(|(p, _)| *p).collect();
         if out.ports_still_bound.is_empty() || Instant::now() > bound_deadline { break; }
         tokio::time::sleep(Duration::from_millis(50)).await;
     }
@@ -726,11 +738,11 @@ fn judge(sc: &Scenario, o: &Outcome) -> (String, Option<String>, serde_json::Val
     if !o.ports_still_bound.is_empty() { fails.push(format!("UDP ports {:?} still bound after the final close + drop", o.ports_still_bound)); }
     // ------------------------------------------------------------------ model term
     let chans = match o.chan { Some((op, cl, en)) => format!("[({}, {}, {})]", op, cl, if en == 1 { "true" } else { "false" }), None => "[]".into() };
-    let term = format!("mkCase {} {} {} {} {} {} {} {}", sc.phase.model(), ev.threads(sc.phase), peer_term(after.peer), ice_term(after.ice), sig_term(after.sig),
+    let term = format!("mkCase {} {} {} {} {} {} {} {}", sc.phase.model(), ev.threads(sc.phase, o.dtls_saw_close_notify), peer_term(after.peer), ice_term(after.ice), sig_term(after.sig),
         reason_term(&after.reason), chans, o.sender);
     let desc = json!({
         "scenario": desc_base,
-        "model": {"phase": sc.phase.model(), "threads": ev.threads(sc.phase)},
+        "model": {"phase": sc.phase.model(), "threads": ev.threads(sc.phase, o.dtls_saw_close_notify)}, "peer_close_notify_reached_dtls": o.dtls_saw_close_notify,
         "before": format!("{:?}", o.before), "after_event": format!("{:?}", after), "after_final_close": format!("{:?}", fin),
         "channel(open,close,ended)": format!("{:?}", o.chan), "channel_final": format!("{:?}", o.chan_final),
         "parked_sender": match o.sender { 0 => "none", 1 => "returned Err", 2 => "returned Ok", _ => "still parked" },
@@ -874,8 +886,18 @@ fn main() {
     // SCTP-level cases on the main thread meanwhile
     let rt = tokio::runtime::Builder::new_multi_thread().worker_threads(2).enable_all().build().unwrap();
     let mut uut_results = vec![];
+    let mut uut_setup_failed = 0usize;
     for cause in ["abort", "shutdown_ack", "shutdown_complete", "dtls_close_notify", "local_close", "close_twice", "close_channel_then_abort"] {
-        uut_results.push(rt.block_on(uut_case(cause)));
+        // the scripted peer's handshake helper panics when the endpoint does not answer in time (machine under
+        // load): retry, then report the case as not set up rather than crashing the driver
+        let mut done = false;
+        for _ in 0..3 {
+            match vh::catch(std::panic::AssertUnwindSafe(|| rt.block_on(uut_case(cause)))) {
+                Ok(r) => { uut_results.push(r); done = true; break; }
+                Err(_) => {}
+            }
+        }
+        if !done { uut_setup_failed += 1; }
     }
     rt.shutdown_timeout(Duration::from_millis(200));
     for h in hs { let _ = h.join(); }
@@ -913,12 +935,16 @@ fn main() {
         out.push(vh::Case { term, key: format!("{:?} {:?} {} {:?}", sc.phase, sc.ev, sc.jitter_ms, sc.yields), desc, oracle_fail: fail, known: None, nontrivial: true, kind: sc.kind.into() });
     }
     // more than a few scenarios that cannot be set up means the harness is not measuring anything
+    if uut_setup_failed > 2 {
+        out.push(vh::Case { term: "-".into(), key: "uut-setup".into(), desc: json!({"sctp_level_setup_failed": uut_setup_failed}),
+            oracle_fail: Some(format!("{} of 7 SCTP-level cases could not be set up (scripted peer handshake)", uut_setup_failed)), known: None, nontrivial: false, kind: "harness".into() });
+    }
     if setup_failed * 5 > n {
         out.push(vh::Case { term: "-".into(), key: "setup".into(), desc: json!({"setup_failed": setup_failed, "of": n}),
             oracle_fail: Some(format!("{} of {} scenarios could not be brought to their phase", setup_failed, n)), known: None, nontrivial: false, kind: "harness".into() });
     }
     out.finish(json!({"generator": {
-        "tier": args.tier, "seed": args.seed, "scenarios": n, "setup_failed": setup_failed, "panics": panics,
+        "tier": args.tier, "seed": args.seed, "scenarios": n, "setup_failed": setup_failed, "sctp_level_setup_failed": uut_setup_failed, "panics": panics,
         "phases": per_phase, "events": per_event,
         "bounds_ms": {"call": ms(CALL_BOUND), "settle": ms(SETTLE_MAX), "release": ms(RELEASE_BOUND)},
         "observed_max_ms": {"api_call_after_event": max_call_ms, "release_after_final_close_and_drop": max_release_ms, "parked_sender_release": max_sender_ms},
